@@ -30,6 +30,7 @@ import (
 	"github.com/opencontainers/go-digest"
 	ocispec "github.com/opencontainers/image-spec/specs-go/v1"
 	"oras.land/oras-go/v2/content"
+	"oras.land/oras-go/v2/content/file"
 	"oras.land/oras-go/v2/content/memory"
 	"oras.land/oras-go/v2/content/oci"
 	"oras.land/oras-go/v2/errdef"
@@ -104,27 +105,43 @@ func (u *universe) mt(s string) int {
 	return id
 }
 
+var fileNames = []string{"f1.txt", "dir/f2.bin", "f3", "dir/sub/f4.json"}
+
+// annID numbers annotation sets: 8*titleIndex + base set (0 none, 1, 2); 7 = unknown.
 func annID(d ocispec.Descriptor) int {
 	if len(d.URLs) > 0 || d.Platform != nil || d.ArtifactType != "" || len(d.Data) > 0 {
-		return 98
+		return 7
 	}
-	if len(d.Annotations) == 0 {
-		return 0
+	title := 0
+	rest := map[string]string{}
+	for k, v := range d.Annotations {
+		if k == ocispec.AnnotationTitle {
+			title = 99
+			for i, n := range fileNames {
+				if n == v {
+					title = i + 1
+				}
+			}
+			continue
+		}
+		rest[k] = v
 	}
+	base := 7
 	for i, a := range annSets {
-		if i > 0 && len(a) == len(d.Annotations) {
+		if len(a) == len(rest) {
 			same := true
 			for k, v := range a {
-				if d.Annotations[k] != v {
+				if rest[k] != v {
 					same = false
 				}
 			}
 			if same {
-				return i
+				base = i
+				break
 			}
 		}
 	}
-	return 99
+	return 8*title + base
 }
 
 func (u *universe) descTok(d ocispec.Descriptor) string {
@@ -162,6 +179,7 @@ type Op struct {
 	Ref  string `json:"r,omitempty"`
 	Bad  int    `json:"b,omitempty"` // push payload: 0 true bytes, 1 other node's bytes, 2 truncated, 3 one extra byte, 4 empty
 	Src  int    `json:"s,omitempty"` // other node for Bad=1
+	Name int    `json:"t,omitempty"` // file store: title annotation (index into fileNames, 0 = none)
 }
 
 func (u *universe) descOf(o Op) ocispec.Descriptor {
@@ -176,10 +194,13 @@ func (u *universe) descOf(o Op) ocispec.Descriptor {
 			d.MediaType = "application/octet-stream"
 		}
 	}
-	if o.Ann > 0 {
+	if o.Ann > 0 || o.Name > 0 {
 		d.Annotations = map[string]string{}
 		for k, v := range annSets[o.Ann] {
 			d.Annotations[k] = v
+		}
+		if o.Name > 0 {
+			d.Annotations[ocispec.AnnotationTitle] = fileNames[o.Name-1]
 		}
 	}
 	return d
@@ -228,7 +249,13 @@ func (u *universe) opTok(o Op) string {
 	switch o.K {
 	case "P":
 		b := u.payload(o)
-		return fmt.Sprintf("P/%s/%d,%d,%s", u.descTok(u.descOf(o)), u.dig(digest.FromBytes(b)), len(b), u.linksTok(b))
+		d := u.descOf(o)
+		pre := ""
+		if d.Size >= 0 && int64(len(b)) > d.Size {
+			pb := b[:d.Size]
+			pre = fmt.Sprintf("~%d,%s", u.dig(digest.FromBytes(pb)), u.linksTok(pb))
+		}
+		return fmt.Sprintf("P/%s/%d,%d,%s%s", u.descTok(d), u.dig(digest.FromBytes(b)), len(b), u.linksTok(b), pre)
 	case "F", "E", "Q", "D":
 		return o.K + "/" + u.descTok(u.descOf(o))
 	case "T":
@@ -275,6 +302,19 @@ func newStore(kind string) (target, func()) {
 		s.AutoGC = false // AutoGC / GC belong to C09
 		return s, func() { os.RemoveAll(dir) }
 	}
+	if strings.HasPrefix(kind, "file") && len(kind) == 6 {
+		dir, err := os.MkdirTemp("", "c06file")
+		if err != nil {
+			panic(err)
+		}
+		s, err := file.New(dir)
+		if err != nil {
+			panic(err)
+		}
+		s.IgnoreNoName = kind[4] == '1'
+		s.DisableOverwrite = kind[5] == '1'
+		return s, func() { s.Close(); os.RemoveAll(dir) }
+	}
 	panic("store kind " + kind)
 }
 
@@ -295,6 +335,10 @@ func errTok(err error) string {
 		return "err:mismatch"
 	case errors.Is(err, errdef.ErrUnsupported):
 		return "err:unsupported"
+	case errors.Is(err, file.ErrDuplicateName):
+		return "err:dupname"
+	case errors.Is(err, file.ErrOverwriteDisallowed):
+		return "err:overwrite"
 	}
 	return "err:other(" + strings.ReplaceAll(err.Error(), " ", "_") + ")"
 }
@@ -445,12 +489,38 @@ type stored struct {
 type reference struct {
 	kind    string
 	u       *universe
-	content map[string]stored             // mem: media type|digest|size ; oci: digest
+	content map[string]stored             // mem, file fallback: media type|digest|size ; oci: digest
 	tags    map[string]ocispec.Descriptor // name -> most recently tagged descriptor
+	// file store
+	isFile   bool
+	ignore   bool
+	names    map[string]bool   // file names pushed successfully
+	byDigest map[string]stored // content of named files by digest
+	named    []stored
 }
 
 func newReference(kind string, u *universe) *reference {
-	return &reference{kind: kind, u: u, content: map[string]stored{}, tags: map[string]ocispec.Descriptor{}}
+	r := &reference{kind: kind, u: u, content: map[string]stored{}, tags: map[string]ocispec.Descriptor{},
+		names: map[string]bool{}, byDigest: map[string]stored{}}
+	if strings.HasPrefix(kind, "file") {
+		r.isFile = true
+		r.ignore = kind[4] == '1'
+	}
+	return r
+}
+
+// lookup: is the described content present, and with which bytes
+func (r *reference) lookup(d ocispec.Descriptor) (stored, bool) {
+	if r.isFile {
+		if name := d.Annotations[ocispec.AnnotationTitle]; name != "" && !r.names[name] {
+			return stored{}, false
+		}
+		if st, ok := r.byDigest[string(d.Digest)]; ok {
+			return st, true
+		}
+	}
+	st, ok := r.content[r.key(d)]
+	return st, ok
 }
 
 func (r *reference) key(d ocispec.Descriptor) string {
@@ -479,10 +549,16 @@ func annEq(a, b ocispec.Descriptor) bool {
 // expectedPreds: stored manifests (stored under a manifest media type) whose successor list contains n.
 func (r *reference) expectedPreds(n ocispec.Descriptor) []string {
 	var out []string
+	all := append([]stored{}, r.named...)
 	for _, st := range r.content {
-		if !isManifestMT(st.desc.MediaType) {
+		all = append(all, st)
+	}
+	seen := map[string]bool{}
+	for _, st := range all {
+		if !isManifestMT(st.desc.MediaType) || seen[r.u.keyTok(st.desc)] {
 			continue
 		}
+		seen[r.u.keyTok(st.desc)] = true
 		nd := r.u.g.Nodes[st.node]
 		for _, s := range nd.Succ {
 			if plainEq(r.u.g.Nodes[s].Desc, n) {
@@ -508,8 +584,40 @@ func (r *reference) judge(o Op, res result) *failure {
 	case "P":
 		d := u.descOf(o)
 		b := u.payload(o)
-		_, present := r.content[r.key(d)]
 		valid := digest.FromBytes(b) == d.Digest && int64(len(b)) == d.Size
+		name := d.Annotations[ocispec.AnnotationTitle]
+		if r.isFile && name != "" {
+			switch {
+			case r.names[name]:
+				if !errors.Is(res.err, file.ErrDuplicateName) {
+					return fail("push-duplicate-name", "push %s under an existing name returned %v, want duplicate-name", o, res.err)
+				}
+			case !valid:
+				if res.err == nil {
+					return fail("push-invalid-accepted", "push %s with bytes not matching the descriptor was accepted", o)
+				}
+			default:
+				if errors.Is(res.err, file.ErrOverwriteDisallowed) {
+					return fail("failed-push-left-file", "push %s refused with overwrite-disallowed: an earlier failed push left a file behind", o)
+				}
+				if res.err != nil {
+					return fail("push-refused", "push of absent valid content %s failed: %v", o, res.err)
+				}
+				r.names[name] = true
+				st := stored{desc: d, bytes: b, node: o.Node}
+				r.byDigest[string(d.Digest)] = st
+				r.named = append(r.named, st)
+			}
+			return nil
+		}
+		if r.isFile && r.ignore {
+			if res.err != nil {
+				return fail("push-ignored", "IgnoreNoName push %s returned %v", o, res.err)
+			}
+			return nil
+		}
+		_, present := r.content[r.key(d)]
+		_, viaFile := r.byDigest[string(d.Digest)]
 		switch {
 		case present:
 			if !errors.Is(res.err, errdef.ErrAlreadyExists) {
@@ -517,7 +625,22 @@ func (r *reference) judge(o Op, res result) *failure {
 			}
 		case !valid:
 			if res.err == nil {
+				if r.isFile && d.Size >= 0 && int64(len(b)) > d.Size && digest.FromBytes(b[:d.Size]) == d.Digest {
+					// content.LimitedStorage cuts the reader at Size: the trailing bytes are never seen
+					r.content[r.key(d)] = stored{desc: d, bytes: b[:d.Size], node: o.Node}
+					return fail("file-unnamed-push-trailing-data-accepted", "unnamed push %s with trailing data was accepted by the fallback storage (fetch returns a prefix of the pushed bytes)", o)
+				}
 				return fail("push-invalid-accepted", "push %s with bytes not matching the descriptor was accepted", o)
+			}
+		case r.isFile && viaFile:
+			// the content is present (Exists answers true through the named file), yet the
+			// unnamed push goes to the fallback storage
+			if res.err == nil {
+				r.content[r.key(d)] = stored{desc: d, bytes: b, node: o.Node}
+				return fail("file-present-unnamed-push-accepted", "unnamed push %s of content already present through a named file was accepted", o)
+			}
+			if !errors.Is(res.err, errdef.ErrAlreadyExists) {
+				return fail("push-present", "push of present content %s returned %v", o, res.err)
 			}
 		default:
 			if res.err != nil {
@@ -527,7 +650,7 @@ func (r *reference) judge(o Op, res result) *failure {
 		}
 	case "F":
 		d := u.descOf(o)
-		st, present := r.content[r.key(d)]
+		st, present := r.lookup(d)
 		if !present {
 			if !errors.Is(res.err, errdef.ErrNotFound) {
 				return fail("fetch-absent", "fetch of absent %s: %s, want not-found", o, res.tok)
@@ -545,15 +668,15 @@ func (r *reference) judge(o Op, res result) *failure {
 		}
 	case "E":
 		d := u.descOf(o)
-		_, present := r.content[r.key(d)]
+		_, present := r.lookup(d)
 		if res.err != nil || res.ok != present {
 			return fail("exists", "exists %s = %s, reference says %v", o, res.tok, present)
 		}
 	case "T":
 		d := u.descOf(o)
-		_, present := r.content[r.key(d)]
+		_, present := r.lookup(d)
 		switch {
-		case o.Ref == "" && r.kind == "oci":
+		case o.Ref == "" && (r.kind == "oci" || r.isFile):
 			if !errors.Is(res.err, errdef.ErrMissingReference) {
 				return fail("tag-empty", "tag with empty reference: %s", res.tok)
 			}
@@ -568,7 +691,7 @@ func (r *reference) judge(o Op, res result) *failure {
 			r.tags[o.Ref] = d
 		}
 	case "R":
-		if o.Ref == "" && r.kind == "oci" {
+		if o.Ref == "" && (r.kind == "oci" || r.isFile) {
 			if !errors.Is(res.err, errdef.ErrMissingReference) {
 				return fail("resolve-empty", "resolve of empty reference: %s", res.tok)
 			}
@@ -672,11 +795,18 @@ func (u *universe) probeOps(kind string) []Op {
 	var ops []Op
 	for i := range u.g.Nodes {
 		vars := []int{0}
-		if kind == "mem" {
+		if kind == "mem" || strings.HasPrefix(kind, "file") {
 			vars = []int{0, 1, 2}
 		}
 		for _, v := range vars {
 			ops = append(ops, Op{K: "E", Node: i, Var: v}, Op{K: "F", Node: i, Var: v})
+		}
+		if strings.HasPrefix(kind, "file") {
+			for _, nm := range []int{homeName(i), (homeName(i) + 1) % 5} {
+				if nm != 0 {
+					ops = append(ops, Op{K: "E", Node: i, Name: nm}, Op{K: "F", Node: i, Name: nm})
+				}
+			}
 		}
 		ops = append(ops, Op{K: "Q", Node: i})
 	}
@@ -698,6 +828,9 @@ func (u *universe) probeOps(kind string) []Op {
 }
 
 // ---------- generation ----------
+
+// homeName: the file name a node is usually pushed under (0 = unnamed, goes to the fallback storage)
+func homeName(node int) int { return node % 5 }
 
 func genUniverse(r *common.Rand, kind string, small bool) *universe {
 	o := dag.DefaultOptions()
@@ -741,6 +874,9 @@ func genOp(r *common.Rand, u *universe, kind string, h *hint) Op {
 	}
 	w := r.Intn(100)
 	full := kind == "oci"
+	if strings.HasPrefix(kind, "file") && w >= 30 && w < 36 {
+		w = 0 // more pushes: names make many of them fail
+	}
 	switch {
 	case w < 30:
 		o.K = "P"
@@ -791,8 +927,15 @@ func genOp(r *common.Rand, u *universe, kind string, h *hint) Op {
 		o.K = "L"
 	}
 	o.Node = node
-	if kind == "mem" && o.K != "Q" && r.Chance(1, 10) {
+	isFile := strings.HasPrefix(kind, "file")
+	if (kind == "mem" || isFile) && o.K != "Q" && r.Chance(1, 10) {
 		o.Var = 1 + r.Intn(2)
+	}
+	if isFile && (o.K == "P" || o.K == "F" || o.K == "E" || o.K == "T") {
+		o.Name = homeName(node)
+		if r.Chance(1, 4) {
+			o.Name = r.Intn(5)
+		}
 	}
 	switch {
 	case o.K == "P" && o.Bad == 0 && o.Var != 1:
@@ -937,7 +1080,7 @@ func concHistory(h histSpec) {
 		// no operation ever returns bytes that do not match its descriptor
 		if e.op.K == "F" && e.res.err == nil {
 			d := u.descOf(e.op)
-			if digest.FromBytes(e.res.bytes) != d.Digest || int64(len(e.res.bytes)) != d.Size {
+			if digest.FromBytes(e.res.bytes) != d.Digest {
 				report("conc-fetch-digest", fmt.Sprintf("fetch %s returned bytes not matching its descriptor", e.op))
 			}
 		}
@@ -950,13 +1093,16 @@ func concHistory(h histSpec) {
 	var ptoks []string
 	probe := u.probeOps(h.Kind)
 	present := map[string]bool{}
+	presentKey := map[string]bool{}
 	for i, p := range probe {
 		res := u.apply(t, p)
 		ptoks = append(ptoks, fmt.Sprintf("9:%d:%d:%s=%s", base+2*i, base+2*i+1, u.opTok(p), res.tok))
 		if p.K == "F" && res.err == nil {
 			d := u.descOf(p)
 			present[string(d.Digest)] = true
-			if digest.FromBytes(res.bytes) != d.Digest || int64(len(res.bytes)) != d.Size {
+			presentKey["dig:"+string(d.Digest)] = true
+			presentKey[u.keyTok(d)] = true
+			if digest.FromBytes(res.bytes) != d.Digest {
 				report("conc-final-fetch-digest", fmt.Sprintf("after quiescence fetch %s returned bytes not matching its descriptor", p))
 			}
 		}
@@ -964,26 +1110,35 @@ func concHistory(h histSpec) {
 			report("conc-final-dangling-tag", fmt.Sprintf("after quiescence %q resolves to absent content", p.Ref))
 		}
 	}
-	// independent serialisability-lite clause: content present at the end was validly pushed by someone,
-	// content validly pushed and never deleted is present
-	pushed, deleted := map[string]bool{}, map[string]bool{}
+	// independent clause: content present at the end was validly pushed by someone, content
+	// validly pushed and never deleted is present.  Keys: digest where the store finds content
+	// by digest (OCI, named files), the full descriptor key otherwise.
+	ckey := func(o Op) string {
+		d := u.descOf(o)
+		if h.Kind == "oci" || (strings.HasPrefix(h.Kind, "file") && o.Name > 0) {
+			return "dig:" + string(d.Digest)
+		}
+		return u.keyTok(d)
+	}
+	pushedDig, pushed, deleted := map[string]bool{}, map[string]bool{}, map[string]bool{}
 	for _, e := range evs {
 		d := u.descOf(e.op)
-		if e.op.K == "P" && e.res.err == nil {
-			pushed[string(d.Digest)] = true
+		if e.op.K == "P" && e.res.err == nil && !(strings.HasPrefix(h.Kind, "file1") && e.op.Name == 0) {
+			pushed[ckey(e.op)] = true
+			pushedDig[string(d.Digest)] = true
 		}
 		if e.op.K == "D" {
-			deleted[string(d.Digest)] = true
+			deleted["dig:"+string(d.Digest)] = true
 		}
 	}
 	for dg := range present {
-		if !pushed[dg] {
+		if !pushedDig[dg] {
 			report("conc-final-unpushed", "content present at quiescence that no successful push delivered: "+dg)
 		}
 	}
-	for dg := range pushed {
-		if !present[dg] && !deleted[dg] {
-			report("conc-final-lost", "content pushed successfully, never deleted, absent at quiescence: "+dg)
+	for k := range pushed {
+		if !presentKey[k] && !deleted[k] {
+			report("conc-final-lost", "content pushed successfully, never deleted, absent at quiescence: "+k)
 		}
 	}
 	run.Case(id, fmt.Sprintf("lin %s %d %s %s #%s:conc:%d:%d:%d", h.Kind, len(probe), strings.Join(toks, " "), strings.Join(ptoks, " "),
@@ -1032,7 +1187,11 @@ func main() {
 	nseq := run.Scale(400, 10000)
 	nops := run.Scale(25, 60)
 	nconc := run.Scale(100, 2000)
-	for _, kind := range []string{"mem", "oci"} {
+	for _, kind := range []string{"mem", "oci", "file00", "file01", "file10", "file11"} {
+		nseq, nconc := nseq, nconc
+		if kind == "file10" || kind == "file11" {
+			nseq, nconc = nseq/4, nconc/4
+		}
 		for i := 0; i < nseq; i++ {
 			seqHistory(histSpec{Kind: kind, Mode: "seq", HSeed: run.Rand.U64() >> 12, NOps: nops})
 		}
